@@ -25,7 +25,7 @@ pub struct UpdCase {
     pub segs: Vec<usize>,
     pub keep: usize,
     pub crlf: bool,
-    /// per test: 0 pass, 1 changed output, 2 changed exit code (non-zero), 3 changed output without final newline, 4 exit code 0 where another was expected, 5 changed output with fence look-alike lines
+    /// per test: 6 the first expected line is gone and the others stay (first test only), 0 pass, 1 changed output, 2 changed exit code (non-zero), 3 changed output without final newline, 4 exit code 0 where another was expected, 5 changed output with fence look-alike lines
     pub outcomes: Vec<u8>,
     /// end-to-end replay through `scrut update --replace --assume-yes` with real commands: index into `cli_documents()`
     #[serde(default)]
@@ -129,6 +129,15 @@ fn outputs_for_stdout(tests: &[TestCase], kinds: &[u8]) -> Vec<Output> {
                 3 => Output { stdout: b"new1\nlast".to_vec().into(), stderr: vec![].into(), exit_code: ExitStatus::Code(expected) },
                 // changed output that contains fence look-alikes (an opening fence with info string, inline code after a fence run)
                 5 => Output { stdout: b"```json\n{}\n```sh `date`\n".to_vec().into(), stderr: vec![].into(), exit_code: ExitStatus::Code(expected) },
+                // the first expected line is not printed any more, the others are
+                6 => {
+                    let all = passing_output(tc);
+                    let rest = match all.iter().position(|b| *b == b'\n') {
+                        Some(p) => all[p + 1..].to_vec(),
+                        None => vec![],
+                    };
+                    Output { stdout: rest.into(), stderr: vec![].into(), exit_code: ExitStatus::Code(expected) }
+                }
                 // the other direction of an exit code change: 0 where a code was expected (or 5 where none was)
                 _ => Output { stdout: passing_output(tc).into(), stderr: vec![].into(), exit_code: ExitStatus::Code(if expected != 0 { 0 } else { 5 }) },
             }
@@ -194,7 +203,7 @@ impl Engine for VcUpdate {
             // quick: in two-segment documents the first segment comes from a core subset (all prose / front-matter /
             // verbatim / glued-title segments and every fifth scrut block variant); thorough: everything
             // (three-segment documents: the same restriction on the first segment, the other two range over everything)
-            let core = |i: usize| i < 14 || (i - 14) % 5 == 0;
+            let core = |i: usize| i < 16 || (i - 16) % 5 == 0;
             !((quick && segs.len() == 2 && !core(segs[0])) || (segs.len() == 3 && !core(segs[0])))
         }).flat_map(move |segs| {
             let total: usize = segs.iter().map(|i| lens[*i]).sum();
@@ -208,10 +217,11 @@ impl Engine for VcUpdate {
                     let reference = tokenize(&doc_text(&segs, keep, crlf));
                     let n = (reference.tests.len() + matches!(reference.unterminated, Some(Unterminated::ScrutFence { body: Body::Test { .. } })) as usize).min(3);
                     let segs = segs.clone();
-                    let count = 6u32.pow(n as u32); // 1, 6, 36, 216
-                    (0..count.max(1)).filter(move |code| !crlf || *code < 6).map(move |code| {
-                        let code = code as u8;
-                        UpdCase { segs: segs.clone(), keep, crlf, outcomes: vec![code % 6, (code / 6) % 6, code / 36], cli_doc: None, stderr: false }
+                    // (outcome 6 - the first expectation goes, the others stay - only for the first test)
+                    let count = if n == 0 { 1 } else { 7 * 6u32.pow(n as u32 - 1) }; // 1, 7, 42, 252
+                    (0..count).filter(move |code| !crlf || *code < 7).map(move |code| {
+                        let code = code as u16;
+                        UpdCase { segs: segs.clone(), keep, crlf, outcomes: vec![(code % 7) as u8, ((code / 7) % 6) as u8, (code / 42) as u8], cli_doc: None, stderr: false }
                     })
                 })
             })
@@ -232,7 +242,7 @@ impl Engine for VcUpdate {
     }
     fn bound(&self, tier: Tier) -> String {
         format!(
-            "all documents of <= {} segments (quick: first segment of two-segment documents from a core subset; thorough: first segment of three-segment documents from that core subset - the full cube did not finish in 70 min) over vc_md's {} segments with every truncation inside the last segment (LF; CRLF for outcome vectors that differ in the first test only) that the parser accepts x every outcome vector in {{pass, changed output, changed exit code, changed output without final newline, exit code 0 instead of the expected one, changed output with fence look-alikes}}^n for the n <= 3 tests x 3 successive applications of update; single-segment documents also with stderr as the validated stream (stdout carrying other text); end-to-end documents with real commands incl. output_stream stderr/combined",
+            "all documents of <= {} segments (quick: first segment of two-segment documents from a core subset; thorough: first segment of three-segment documents from that core subset - the full cube did not finish in 70 min) over vc_md's {} segments with every truncation inside the last segment (LF; CRLF for outcome vectors that differ in the first test only) that the parser accepts x every outcome vector in {{pass, changed output, changed exit code, changed output without final newline, exit code 0 instead of the expected one, changed output with fence look-alikes}}^n (plus, for the first test, output that lost its first expected line) for the n <= 3 tests x 3 successive applications of update; single-segment documents also with stderr as the validated stream (stdout carrying other text); end-to-end documents with real commands incl. output_stream stderr/combined",
             if tier == Tier::Quick { 2 } else { 3 },
             segments().len()
         )
